@@ -140,9 +140,12 @@ FormatStep(objs, opts, call) ==
   LET op == call.op
       o == objs[call.t] IN
   CASE op = "pack" -> DoPack(opts, "BitStream", call.tk, call.va)
-    \* a token string is laid out in reading order in both modes (pack mirrors the order under lsb0,
-    \* which C12 lists; the token-string constructor is not in that list, so lsb0 is left open here)
-    [] op = "newfmt" -> IF opts.lsb0 THEN Unconstrained ELSE DoPack(opts, call.sa[1], call.tk, <<>>)
+    \* a token string is laid out in reading order in both modes (pack mirrors the order under lsb0, which
+    \* C12 lists; the token-string constructor is not in that list and keeps the reading order); exp-Golomb
+    \* tokens are refused in lsb0 mode as everywhere else
+    [] op = "newfmt" ->
+         IF opts.lsb0 /\ \E i \in 1..Len(call.tk) : IsVarLen(call.tk[i]) THEN Raises(AnyDoc)
+         ELSE DoPack([opts EXCEPT !.lsb0 = FALSE], call.sa[1], call.tk, <<>>)
     [] op = "unpack" -> DoParse(call.t, o, opts, call.tk, 0, FALSE)
     [] op = "readlist" ->
          IF ~IsStream(o.c) THEN Raises({"*", "Internal"}) ELSE DoParse(call.t, o, opts, call.tk, o.p, TRUE)
